@@ -24,7 +24,7 @@ PROPS2 = {
     },
     "C16": {
         "level": "Stack: next-level decision table over (write, read, clear), readiness classes (not full / not empty), write and read addressing relative "
-        "to the level, transparent read port, peek effect-free nonexclusive with read's value, read/write exclusive.",
+        "to the level, transparent read port that is enabled in every cycle, peek effect-free nonexclusive with read's value, read/write exclusive.",
         "undecided": "LIFO order over all histories (paper induction from the tables).",
         "technique": T_RTL,
     },
@@ -32,7 +32,7 @@ PROPS2 = {
         "level": "Call structure of the transformers and connectors: ConnectTrans is one transaction calling both methods with crossed data, "
         "CrossbarConnectTrans connects all pairs, MethodMap composes i_transform/target/o_transform in that order, MethodFilter calls the target only under "
         "the condition (default result first, single_caller), MethodProduct calls all targets and combines, NonexclusiveWrapper forwards argument and result "
-        "from a nonexclusive method, create() helpers provide the built method.",
+        "from a nonexclusive method, create() helpers provide the built method and hand every option on to the constructor.",
         "undecided": "behaviour over readiness histories (delegated to C03/C04/C17); user-supplied map functions.",
         "technique": T_PLUMB,
     },
@@ -120,7 +120,8 @@ PROPS2 = {
     },
     "C31": {
         "level": "Counters and histograms: counter update per call, TaggedCounter tag selection (index = matched tag value; F2 fixed), histogram bucket arms and "
-        "bounds, neutral defaults, disabled-metrics path emits nothing.",
+        "bounds, neutral defaults, disabled-metrics path emits nothing; the one-hot classification of a tag set is evaluated per tag value (power of two >= 1); "
+        "min / max registers of the histogram are sample-wide.",
         "undecided": "numeric consistency of histogram statistics over all sample sequences.",
         "technique": T_RTL,
     },
@@ -170,7 +171,8 @@ PROPS2 = {
     },
     "C38": {
         "level": "one_hot_mux: the returned expression is evaluated (mixed concrete select bits / labelled data bits) for 0..4 inputs, every select valuation, "
-        "with and without default and priority, and must be wired to the documented input; OneHotMux.create/elaborate pair select[i] with inputs[i]; Encoder / "
+        "with and without default and priority, and must be wired to the documented input; every arm keeps the shape of its data (Amaranth's shape rules, signed and "
+        "unsigned, widths 1-4); OneHotMux.create/elaborate pair select[i] with inputs[i]; Encoder / "
         "Decoder / PriorityEncoder case tables; Gray encoder and decoder (loop recurrence) evaluated for widths 1..6 (decoder inverts encoder); priority tree: "
         "leaf, split (halves, start indices, 0 < middle < len), merge (Case((1<<i)-1): lower[j] for j<i, upper[j-i] above) and root wiring; ring encoder: the "
         "inner encoder's input is evaluated for widths 1..5, every input/first/last, against the rotated circular interval [first,last), outputs rotated back "
@@ -185,7 +187,7 @@ PROPS2 = {
         "a name is reached only when it is in both field sets (KeyError raises dominate), empty selection raises, recursion into lhs[name] / rhs[name] with the "
         "nested selection (mapping -> fields[name], list -> ALL, mode otherwise), leaf emits exactly one Value.cast(lhs).eq(Value.cast(rhs)) in that "
         "direction, singleton unwrapping only through one-field structures, shape comparison of the two assigned values dominates the statement, union branch "
-        "(singleton mapping, member test), assign_arg_fields table.",
+        "(singleton mapping, member test, both other outcomes raise), assign_arg_fields table, Array proxies flattened to any depth.",
         "undecided": "equality of all selected fields after the statements for every nested layout (unfolding the recursion over layouts); Amaranth's own "
         "eq semantics.",
         "technique": T_PATH,
@@ -194,7 +196,7 @@ PROPS2 = {
         "level": "transpose: result layout nests inner keys outside (lambda nesting read from the syntax tree), the produced value iterates inner keys outside "
         "and takes view[o][i], constant branch likewise, key order of the helper, mk_layout kinds, rejections, layout_keys; align_to/down_to_power_of_two, "
         "bits_from_int, neg, int_to_signed, signed_to_int: returned python-integer expression evaluated for all arguments in a bounded range against the "
-        "documented function, and the two conversions are inverse for widths 1..6; make_hashable conversion table (mapping -> frozenset of pairs, iterable -> "
+        "documented function (float arithmetic in these integer helpers is a violation), and the two conversions are inverse for widths 1..6; make_hashable conversion table (mapping -> frozenset of pairs, iterable -> "
         "tuple in order, hashable -> itself).",
         "undecided": "arguments outside the bounds; hash/equality semantics of python objects (trusted).",
         "technique": T_EVAL,
